@@ -164,7 +164,7 @@ func runReplays(prop, tier, work, replayDir string, byFn map[string]*merged, ord
 		var jobs []Job
 		for _, it := range interp {
 			m := byFn[it.fn]
-			jobs = append(jobs, Job{Pkg: m.H.Pkg, Fn: it.fn, ShardN: 1, Thorough: tier == "thorough", Pin: &PinFile{Values: it.viol.Pinned, FValues: it.viol.PinnedF, Chooses: it.viol.Chooses}})
+			jobs = append(jobs, Job{Pkg: m.H.Pkg, Fn: it.fn, ShardN: 1, MaxSteps: m.H.MaxSteps, Thorough: tier == "thorough", Pin: &PinFile{Values: it.viol.Pinned, FValues: it.viol.PinnedF, Chooses: it.viol.Chooses}})
 		}
 		rs := runJobs(l, jobs, 8, nil)
 		for i, it := range interp {
@@ -315,7 +315,7 @@ func cmdReplay(args []string) int {
 		fmt.Fprintln(os.Stderr, err)
 		return 2
 	}
-	r := runJobs(l, []Job{{Pkg: h.Pkg, Fn: h.Fn, ShardN: 1, Pin: rf.Pin, Thorough: rf.Tier == "thorough", Verbose: true}}, 1, nil)[0]
+	r := runJobs(l, []Job{{Pkg: h.Pkg, Fn: h.Fn, ShardN: 1, MaxSteps: h.MaxSteps, Pin: rf.Pin, Thorough: rf.Tier == "thorough", Verbose: true}}, 1, nil)[0]
 	printResult(r)
 	if a := r.Asserts[rf.Label]; a != nil && a.Violated > 0 {
 		fmt.Printf("REPRODUCED (interpreter, all nondet values pinned) assertion %s fails\n", rf.Label)
